@@ -6,8 +6,10 @@
 # Writes /verif/seeded/<ID>/{patch.diff,demo.rs,meta.json} when all four hold.  The worktree is removed afterwards.
 set -u
 ID=$1; BASE=${2:-HEAD}
-SRC=/root/scratch/agents/out/$ID
-WT=/tmp/wt/verify_$ID
+# SEED_SRC: where the sub-agent wrote its deliverables; SEED_NAME: directory name under /verif/seeded (e.g. C03b for a second seed)
+SRC=${SEED_SRC:-/root/scratch/agents/out/$ID}
+NAME=${SEED_NAME:-$ID}
+WT=/tmp/wt/verify_$NAME
 export CARGO_NET_OFFLINE=true CARGO_TARGET_DIR=$WT/target
 git -C /repo worktree remove --force $WT >/dev/null 2>&1
 git -C /repo worktree add --detach $WT $BASE >/dev/null 2>&1 || { echo "cannot create worktree"; exit 2; }
@@ -45,22 +47,22 @@ if [ "${PASSED:-0}" -ge 470 ] && [ "$W" -ne 0 ] && [ "$WO" -eq 0 ]; then
   if [ -n "$FAILED_NAMES" ] && [ "$(echo $FAILED_NAMES | wc -w)" -gt 1 ]; then OK=0; fi
 fi
 if [ $OK -eq 1 ]; then
-  mkdir -p /verif/seeded/$ID
-  cp $SRC/patch.diff /verif/seeded/$ID/patch.diff
-  cp $SRC/demo.rs /verif/seeded/$ID/demo.rs
-  [ -f $SRC/notes.md ] && cp $SRC/notes.md /verif/seeded/$ID/notes.md
-  [ -f $SRC/demo_wiring.txt ] && cp $SRC/demo_wiring.txt /verif/seeded/$ID/demo_wiring.txt
+  mkdir -p /verif/seeded/$NAME
+  cp $SRC/patch.diff /verif/seeded/$NAME/patch.diff
+  cp $SRC/demo.rs /verif/seeded/$NAME/demo.rs
+  [ -f $SRC/notes.md ] && cp $SRC/notes.md /verif/seeded/$NAME/notes.md
+  [ -f $SRC/demo_wiring.txt ] && cp $SRC/demo_wiring.txt /verif/seeded/$NAME/demo_wiring.txt
   python3 - <<EOF
 import json
 log=open('$WT/.verify_log').read().strip().split('\n')
 json.dump({'property':'$ID','base_commit':'$(git -C /repo rev-parse --short $BASE)','confirmed':True,
  'what_i_ran':['git worktree add (scratch) + git apply patch.diff','cargo nextest run (pinned baseline command) with the patch: '+log[0],
                'cargo test seeded_demo with the patch: '+log[1],'cargo test seeded_demo without the patch: '+log[2]],
- 'needs_to_manifest':'see notes.md','detected_by':None}, open('/verif/seeded/$ID/meta.json','w'), indent=1)
+ 'needs_to_manifest':'see notes.md','detected_by':None}, open('/verif/seeded/$NAME/meta.json','w'), indent=1)
 EOF
-  res "CONFIRMED $ID"
+  res "CONFIRMED $NAME"
 else
-  res "NOT CONFIRMED $ID"
+  res "NOT CONFIRMED $NAME"
 fi
 cd /
 git -C /repo worktree remove --force $WT >/dev/null 2>&1
